@@ -126,6 +126,9 @@ def compare_to_recipe(f, r, nsteps=None, times=True):
             ge = [tuple(int(x) for x in row) for row in np.asarray(f.variables['ETFLAG'][...])[:, 0, :]]
             if ge != te[:n]:
                 out.append(('etflag', 'ETFLAG %r expected %r' % (ge, te[:n])))
+    if fmt == 'wind' and r.get('lstagger') is not None:
+        if not hasattr(f, 'LSTAGGER') or int(f.LSTAGGER) != r['lstagger']:
+            out.append(('staggering-flag', 'LSTAGGER=%r expected %r' % (getattr(f, 'LSTAGGER', None), r['lstagger'])))
     if fmt in ('uamiv', 'lateral_boundary'):
         g = r['grid']
         for attr, key in (('XORIG', 'xorg'), ('YORIG', 'yorg'), ('XCELL', 'delx'), ('YCELL', 'dely'),
@@ -174,6 +177,8 @@ def recipe_diff(dec, r):
         return out
     if [tuple(x) for x in dec['times']] != [tuple(x) for x in r['times']]:
         out.append(('times', 'record times %r expected %r' % (dec['times'], r['times'])))
+    if fmt == 'wind' and dec.get('lstagger') != r.get('lstagger'):
+        out.append(('staggering-flag', 'time header flag %r expected %r' % (dec.get('lstagger'), r.get('lstagger'))))
     if fmt == 'cloud_rain':
         if (dec['nx'], dec['ny'], dec['nz']) != (r['nx'], r['ny'], r['nz']) or dec['cldhdr'] != r['cldhdr']:
             out.append(('header-counts', 'header %r nx,ny,nz=%r expected %r %r' % (
@@ -257,8 +262,8 @@ def lu_recipe_diff(dec, r):
     return out
 
 
-def lu_hand(r):
-    """a land-use file built in memory (non-contiguous arrays)"""
+def lu_hand(r, reverse=False):
+    """a land-use file built in memory (non-contiguous arrays); reverse = optional variables first"""
     P = core.load_lib()
     from PseudoNetCDF.core._variables import PseudoNetCDFVariable
     f = P.PseudoNetCDFFile()
@@ -267,7 +272,7 @@ def lu_hand(r):
     f.createDimension('COL', r['nx'])
     if r['style'] == 'old':
         f._newstyle = False
-    for k, a in lu_expected(r):
+    for k, a in (lu_expected(r)[::-1] if reverse else lu_expected(r)):
         dims = ('LANDUSE', 'ROW', 'COL') if a.ndim == 3 else ('ROW', 'COL')
         f.variables[k] = PseudoNetCDFVariable(f, k, 'f', dims, values=np.asfortranarray(a), units='')
     return f
